@@ -148,6 +148,14 @@ pub fn generate(r: &mut Rng, tier: Tier, run_index_hint: u64) -> Scenario {
         } else {
             None
         };
+        // the output side fails: full disk, or the reader of the pipe has gone away
+        let stdout_fault = if r.chance(1, 12) {
+            let k = *r.pick(&["full", "closed"]);
+            note.push_str(&format!("stdout-{k} "));
+            Some(k.to_string())
+        } else {
+            None
+        };
         let n_modes = if tier == Tier::Quick { 3 } else { 5 };
         let mut modes: Vec<Vec<String>> = Vec::new();
         for _ in 0..n_modes {
@@ -157,7 +165,7 @@ pub fn generate(r: &mut Rng, tier: Tier, run_index_hint: u64) -> Scenario {
             }
         }
         let profile = if tier == Tier::Thorough && r.chance(1, 3) || tier == Tier::Quick && r.chance(1, 6) { "release" } else { "dev" };
-        t2spec = Some(T2Spec { modes, plan, profile: profile.into(), force_color: r.chance(1, 2), raw_base_name });
+        t2spec = Some(T2Spec { modes, plan, profile: profile.into(), force_color: r.chance(1, 2), raw_base_name, stdout_fault });
     } else {
         personality = if has_cycle { *r.pick(&[Personality::Strict, Personality::SameId]) } else { *r.pick(&[Personality::Strict, Personality::Fresh, Personality::SameId]) };
         // reader faults: enumerate kind x import index from the run index, plus random extras
@@ -222,7 +230,7 @@ pub fn check(scn: &Scenario, stats: &mut Stats) -> Vec<Violation> {
         for flags in &spec.modes {
             let force_color = spec.force_color && !flags.iter().any(|f| f == "--no-color");
             let cpu = if chars > 8_000 { 120 } else { 10 };
-            let Ok(run) = t2::run_rva(&t2::RvaCall { sandbox: &sb, base: &scn.world.base, flags, entropy: scn.entropy[0], plan: &spec.plan, profile: &spec.profile, force_color, cpu_seconds: cpu, raw_base: spec.raw_base_name.as_deref().map(t2::unhex) }) else {
+            let Ok(run) = t2::run_rva(&t2::RvaCall { sandbox: &sb, base: &scn.world.base, flags, entropy: scn.entropy[0], plan: &spec.plan, profile: &spec.profile, force_color, cpu_seconds: cpu, raw_base: spec.raw_base_name.as_deref().map(t2::unhex), stdout_fault: spec.stdout_fault.as_deref() }) else {
                 stats.inc("harness:spawn_failed");
                 return out;
             };
@@ -250,7 +258,16 @@ pub fn check(scn: &Scenario, stats: &mut Stats) -> Vec<Violation> {
                 fired_any = true;
             }
             let mode = if flags.is_empty() { "pretty".to_string() } else { flags.join(" ") };
-            if let Some(why) = run.abnormal() {
+            // with standard output failing, ending with status 1 and no panic is the graceful way out
+            let out_failed = spec.stdout_fault.is_some() && run.signal.is_none() && run.status == Some(1) && !run.stderr.contains("panicked at");
+            if let Some(k) = &spec.stdout_fault {
+                stats.inc(&format!("fault:io:stdout-{k}:runs"));
+                if out_failed {
+                    stats.inc(&format!("fault:io:stdout-{k}:write-failed"));
+                    fired_any = true;
+                }
+            }
+            if let Some(why) = run.abnormal().filter(|_| !out_failed) {
                 // panic location from stderr, if any
                 let loc = run.stderr.lines().find(|l| l.contains("panicked at")).map(|l| l.split("panicked at ").nth(1).unwrap_or("").trim_end_matches(':').to_string()).unwrap_or_default();
                 let loc = loc.rsplit_once(':').map_or(loc.clone(), |(a, _)| a.to_string());
@@ -271,7 +288,7 @@ pub fn check(scn: &Scenario, stats: &mut Stats) -> Vec<Violation> {
                 out.push(viol("no-abnormal-exit", format!("cli:{kind}"), format!("rva lint {mode} ({} build): {why}; stderr: {}", spec.profile, run.stderr.chars().take(400).collect::<String>()), &f));
                 return out;
             }
-            if flags.iter().any(|f| f == "--json") && serde_json::from_str::<serde_json::Value>(&run.stdout).is_err() {
+            if spec.stdout_fault.is_none() && flags.iter().any(|f| f == "--json") && serde_json::from_str::<serde_json::Value>(&run.stdout).is_err() {
                 out.push(viol("json-parses", "cli:json-unparseable".into(), format!("rva lint {mode}: stdout is not JSON: {}", run.stdout.chars().take(200).collect::<String>()), &feats));
                 return out;
             }
